@@ -76,6 +76,10 @@ def generate(tier, rng):
             case['build'] = 'buffers'
             if rng.random() < 0.7:
                 mem[3] = mem[2]      # equal gff / music contents: the caller may hand in one buffer for both
+        elif k >= 2 and rng.random() < 0.35:
+            # between two writes the caller replaces section objects of the cart (game.sfx = another Sfx ..., as the
+            # cart readers do): later writes must land in the sections the cart has THEN
+            case['rebind'] = [[rng.randrange(1, k), rng.randrange(5)] for _ in range(rng.randrange(1, 3))]
         yield case
 
 
@@ -90,6 +94,9 @@ def corpus_cases():
     yield {'mem': z, 'writes': [[0x42ff, '09']]}
     yield {'mem': z, 'writes': [[0x0, '05' * 0x4300]]}
     yield {'mem': z, 'writes': [[0x1ff8, '07' * 16], [0x2ffe, '0102'], [0x4300, '-']]}
+    # a section object replaced between two writes (seed s4b_C18: a memory map cached at the first write)
+    yield {'mem': z, 'writes': [[0x3200, '0102'], [0x3204, '0304']], 'rebind': [[1, 4]]}
+    yield {'mem': z, 'writes': [[0x0, '01'], [0x1000, '0203'], [0x2000, '04']], 'rebind': [[1, 0], [2, 1]]}
 
 
 def run_impl(case):
@@ -102,7 +109,18 @@ def run_impl(case):
         for s, h in zip(secs, case['mem']):
             s._data[:] = lib.unhx(h)
     steps = []
-    for addr, dh in case['writes']:
+    names = ['gfx', 'map', 'gff', 'music', 'sfx']
+    for i, (addr, dh) in enumerate(case['writes']):
+        for at, k in case.get('rebind', []):
+            if at == i:
+                old = getattr(g, names[k])
+                new = old.__class__.__new__(old.__class__)      # a different object with the same contents
+                new.__dict__.update(old.__dict__)
+                new._data = bytearray(old._data)
+                setattr(g, names[k], new)
+                if names[k] == 'gfx' and getattr(g.map, '_gfx', None) is old:
+                    g.map._gfx = new
+                secs = [getattr(g, n) for n in names]
         before = [lib.hx(s._data) for s in secs]
         try:
             g.write_cart_data(lib.unhx(dh), addr)
